@@ -25,8 +25,8 @@ func init() {
 	register(&Prop{
 		ID:    "C06",
 		Level: "exploration",
-		Rule: "one run = one seeded history of escape operations (template c06a: closures returned / stored in slices, maps and globals, two closures sharing a variable, addresses of int-slot and struct locals, closures made in loops and nested blocks, recursion, method values, named results captured by closures) interleaved with frame-churning calls, executed (a) natively, (b) interpreted with frame recycling disabled, (c) interpreted with a seeded frame-pool configuration: capacity from {0,1,2,3,32}, a seeded 'drop instead of recycle' coin per release, and every recycled frame poisoned (all value slots overwritten with a sentinel value, all integer slots with a bit pattern); " +
-			"non-trivial = at least one poisoned frame was handed out again and at least 3 escaped objects were used after their frame was released; distinct = distinct (pool configuration, event log)",
+		Rule: "one run = one seeded history of escape operations (template c06a: closures returned / stored in slices, maps and globals, two closures sharing a variable, addresses of int-slot and struct locals, closures made in loops and nested blocks, recursion, method values, named results captured by closures) interleaved with frame-churning calls, executed (a) natively, (b) interpreted with frame recycling disabled, (c) interpreted with a seeded frame-pool configuration: capacity from {0,1,2,3,32}, a seeded 'drop instead of recycle' coin per release, and, in three runs out of four, every recycled frame poisoned (all value slots overwritten with a sentinel value, all integer slots with a bit pattern; the fourth keeps the old content, which is what the shipped allocator hands out); " +
+			"non-trivial = at least one poisoned (or, without poison, recycled) frame was handed out again and at least 3 escaped objects were used after their frame was released; distinct = distinct (pool configuration, event log)",
 		Runs: func(tier string) int {
 			if tier == "thorough" {
 				return 300000
@@ -40,7 +40,7 @@ func init() {
 			return 70 * time.Second
 		},
 		Run:        runC06,
-		FaultKinds: []string{"frame_poisoned_on_release", "frame_dropped_instead_of_recycled", "small_pool_capacity", "poisoned_frame_handed_out_again"},
+		FaultKinds: []string{"frame_poisoned_on_release", "frame_dropped_instead_of_recycled", "small_pool_capacity", "poisoned_frame_handed_out_again", "frame_recycled_with_its_old_content"},
 		ProbeNames: []string{"frames_released", "frames_kept_for_closure", "escaped_objects_used"},
 		RealVsStub: []string{
 			"real: frame allocation/release (newEnv, NewEnv, newEnv4Func, freeEnv), MarkUsedByClosure, IntAddressTaken handling, call and function specialisations; native twin compiled by the Go toolchain",
@@ -65,7 +65,7 @@ func runC06Interp(ch *sim.Choices, cfg *poolCfg, o *Outcome) (singleRun, string)
 		return singleRun{}, lerr
 	}
 	pool := ch.Stream("pool")
-	released, kept, dropped, poisoned, handed := 0, 0, 0, 0, 0
+	released, kept, dropped, poisoned, handed, recycled := 0, 0, 0, 0, 0, 0
 	hs.EnvFree = func(run *fast.Run, env *fast.Env) {
 		released++
 		if env.UsedByClosure {
@@ -95,6 +95,7 @@ func runC06Interp(ch *sim.Choices, cfg *poolCfg, o *Outcome) (singleRun, string)
 			}
 			poisoned++
 		}
+		recycled++
 		return false
 	}
 	hs.EnvAlloc = func(run *fast.Run, env *fast.Env, kind int) {
@@ -115,6 +116,9 @@ func runC06Interp(ch *sim.Choices, cfg *poolCfg, o *Outcome) (singleRun, string)
 		o.fault("frame_dropped_instead_of_recycled", dropped)
 		o.fault("frame_poisoned_on_release", poisoned)
 		o.fault("poisoned_frame_handed_out_again", handed)
+		if !cfg.poison {
+			o.fault("frame_recycled_with_its_old_content", recycled)
+		}
 		if cfg.cap < 32 {
 			o.fault("small_pool_capacity", 1)
 		}
@@ -124,7 +128,7 @@ func runC06Interp(ch *sim.Choices, cfg *poolCfg, o *Outcome) (singleRun, string)
 
 func runC06(t *testing.T, ch *sim.Choices, tier string) (o Outcome) {
 	gen := ch.Stream("gen")
-	cfg := &poolCfg{cap: []int{0, 1, 2, 3, 32, 32}[gen.Draw(6)], dropDen: []int{0, 0, 2, 5}[gen.Draw(4)], poison: true}
+	cfg := &poolCfg{cap: []int{0, 1, 2, 3, 32, 32}[gen.Draw(6)], dropDen: []int{0, 0, 2, 5}[gen.Draw(4)], poison: gen.Draw(4) != 0}
 	nat := runSingleNative(ch.Fork(), "hist", c06a.Main, faultPlan{})
 	if nat.Escaped != "" {
 		panic(sim.HarnessFault{Msg: "c06a native twin panicked: " + nat.Escaped})
@@ -146,10 +150,10 @@ func runC06(t *testing.T, ch *sim.Choices, tier string) (o Outcome) {
 	o.Steps = len(a)
 	o.EventHash = hashStrings(hashStrings(hashStrings(0, a), b), c)
 	o.Hash = sim.Mix(uint64(cfg.cap), uint64(cfg.dropDen), hashStrings(0, a))
-	o.Nontrivial = o.Faults["poisoned_frame_handed_out_again"] > 0 && used >= 3
+	o.Nontrivial = (o.Faults["poisoned_frame_handed_out_again"] > 0 || o.Faults["frame_recycled_with_its_old_content"] > 0) && used >= 3
 	o.Sample = map[string]interface{}{"pool_capacity": cfg.cap, "drop_one_in": cfg.dropDen, "poison": cfg.poison, "events": clipList(a, 30),
 		"frames": fmt.Sprintf("released=%d poisoned=%d handed_out_again=%d", o.Probes["frames_released"], o.Faults["frame_poisoned_on_release"], o.Faults["poisoned_frame_handed_out_again"])}
-	desc := fmt.Sprintf("pool capacity %d, drop one in %d, poison on", cfg.cap, cfg.dropDen)
+	desc := fmt.Sprintf("pool capacity %d, drop one in %d, poison %v", cfg.cap, cfg.dropDen, cfg.poison)
 	for _, e := range a {
 		if strings.Contains(e, "POISON") || strings.Contains(e, "16045690984503111693") || strings.Contains(e, "-2401053089206440") {
 			o.fail("stale-frame-read", normKey("c06a", "sentinel"), desc+": a poisoned slot of a released frame was observed: "+e+"\n"+joinLines(a))
